@@ -33,6 +33,7 @@ Proof.
   intros sn pl e uptodate current rq cspec rep nb H Ho Hd Hu Hs Hcs Hf Hne Hr Hn Hnb Hshort.
   unfold eds_sync in H. rewrite Ho, Hd in H. cbn [negb] in H.
   destruct (validate (e_strategy e)) as [[]|k|k]; try discriminate.
+  destruct (es_fail_list_rs sn); [discriminate|].
   rewrite Hu, Hs in H.
   match type of H with (if ?b then _ else _) = _ => destruct b end; [inversion H; reflexivity|].
   match type of H with match ?u with _ => _ end = _ => destruct u as [upl|k|k] eqn:Eui end; try discriminate.
